@@ -45,7 +45,7 @@ REDUCED = [
     ["- 240203#00 carries the first zid of a date other items are dated with"],
     ["x 2024-02-29 done on a leap day"],
 ]
-LAYOUTS = ["same_block", "two_blocks", "dated_h2", "subdir", "two_pages", "same_name_pages", "deep_sections", "h2_first", "crlf", "odd_separators"]
+LAYOUTS = ["same_block", "two_blocks", "dated_h2", "subdir", "two_pages", "same_name_pages", "deep_sections", "h2_first", "crlf", "odd_separators", "bare_cr"]
 
 
 def variant_items():
@@ -118,6 +118,11 @@ def build_files(case) -> dict[str, str]:
         # notes: none of them is a line break of a page
         return {"a.zo": "# t with \u2028 in the title\n\n- 240107#Z8 pasted \u2028 text \u2029 here\n  continued \u0085 line\n"
                 + A + "- 240108#ZE more \u2028\u2028 of it\n" + B}
+    if layout == "bare_cr":
+        # a carriage return that is NOT followed by a line feed (a progress line pasted from a terminal)
+        # is no line break of a page: the lines below it keep their numbers
+        return {"a.zo": "# t\n\n- 240107#Z8 a progress line 50%\r100% pasted from a terminal\n  and\rmore\n" + A
+                + "- 240108#ZE another\rone\n" + B}
     if layout == "crlf":
         # a page with Windows line endings is a valid page; only the first lines of the
         # formerly ZID-less items may change
